@@ -133,6 +133,11 @@ def run(chk: Check):
     n = 3000 if chk.tier == "thorough" else 150
     for prog, sources, want in progs.gen_programs(chk.rng, n, ops=progs.CORE_OPS, depth_choices=(1, 2, 3, 4)):
         run_program(chk, da, prog, sources, want)
+    import random as _random
+    api_rng = _random.Random(f"{chk.pid}-api-family-{chk.seed}")      # own stream: the families above keep theirs
+    for prog, sources, want in progs.gen_api_programs(api_rng, 1500 if chk.tier == "thorough" else 120):
+        chk.count("api-call:" + next(q[1] for q in progs.all_nodes(prog) if q[0] == "call"))
+        run_program(chk, da, prog, sources, want)
 
 
 # ==========================================================================
